@@ -1,11 +1,130 @@
-(* Props/C05.v -- placeholder while the harness is being brought up; replaced below *)
-From Coq Require Import String QArith ZArith Bool Arith List Lia.
-From Ropt Require Import Base.Num Base.ListX Model.Filters.
+(* Props/C05.v -- property C05: the sort filter selects exactly the configured rank window of the successful
+   realizations.  Only statements; each is closed by a lemma of Proofs/Filters.v / Proofs/SortX.v.
+
+   Vocabulary (Model/Filters.v, section "specifications"; none of it mentions the sort):
+     succeeded failed r        r is a successful realization
+     precedes values s r       value s < value r, or equal values and s < r   (the model's tie rule; the
+                               implementation's tie order is unspecified and every order is accepted by the checker)
+     rank values failed r      number of successful s with [precedes values s r]  = ascending rank of r
+     selected values failed first last r = succeeded r && first <= rank r <= last *)
+From Coq Require Import String QArith ZArith Bool Arith List.
+From Ropt Require Import Base.Num Base.ListX Model.Filters Proofs.SortX Proofs.Filters.
 Import ListNotations.
 
-Theorem C05_range_rejected : forall R first last,
-  check_range R first last = true <-> (first <= last /\ last < R)%nat.
+(* the weight of r is its configured weight if r is successful with rank in [first, last], the literal 0 otherwise;
+   in particular failed realizations get 0 and are never counted in a rank (for every size, mask, values, window) *)
+Theorem C05_window : forall values cfgw failed first last r,
+  length failed = length values -> length cfgw = length failed ->
+  nth r (sort_and_select values cfgw failed first last) 0%Q =
+    if selected values failed first last r then nth r cfgw 0%Q else 0%Q.
+Proof. exact sort_and_select_spec. Qed.
+
+(* the model's ranking lists exactly the successful realizations, each once, in ascending order of the value,
+   and the position of a realization in it is its rank *)
+Theorem C05_ranking : forall failed values, length failed = length values ->
+  Permutation.Permutation (ranked failed values) (successes failed) /\
+  Sorted.StronglySorted (fun s r => precedes values s r = true) (ranked failed values) /\
+  forall k, (k < length (ranked failed values))%nat -> rank values failed (nth k (ranked failed values) 0%nat) = k.
 Proof.
-  intros R f l. unfold check_range. rewrite !andb_true_iff, !Nat.ltb_lt, Nat.leb_le. lia.
+  intros failed values H. split; [apply ranked_perm; exact H|]. split; [apply ranked_sorted; exact H|].
+  intros k Hk. apply rank_nth; assumption.
 Qed.
+
+(* objective flavour (the sort value is the weighted sum of the chosen objectives when several are configured) and
+   constraint flavour: either some selected realization has a positive configured weight and the filter returns the
+   window weights, or none has and the evaluation ends with TOO_FEW_REALIZATIONS -- never a value *)
+Theorem C05_empty_is_too_few_objective : forall cfg sort first last objs cns,
+  length (c_rw cfg) = length objs ->
+  let values := map (objective_key (c_ow cfg) sort) objs in
+  let failed := col0_failed objs in
+  ((exists r, selected values failed first last r = true /\ (0 < nth r (c_rw cfg) 0)%Q) /\
+   get_weights cfg (SortObjective sort first last) objs cns = Ok (sort_and_select values (c_rw cfg) failed first last)) \/
+  (~ (exists r, selected values failed first last r = true /\ (0 < nth r (c_rw cfg) 0)%Q) /\
+   get_weights cfg (SortObjective sort first last) objs cns = Abort too_few).
+Proof.
+  intros cfg sort first last objs cns H values failed.
+  apply sort_outcome; [reflexivity | |]; unfold values, failed; rewrite col0_failed_length, ?map_length; auto.
+Qed.
+
+Theorem C05_empty_is_too_few_constraint : forall cfg sort first last objs c,
+  length (c_rw cfg) = length c ->
+  let values := constraint_col sort c in
+  let failed := col0_failed c in
+  ((exists r, selected values failed first last r = true /\ (0 < nth r (c_rw cfg) 0)%Q) /\
+   get_weights cfg (SortConstraint sort first last) objs (Some c) = Ok (sort_and_select values (c_rw cfg) failed first last)) \/
+  (~ (exists r, selected values failed first last r = true /\ (0 < nth r (c_rw cfg) 0)%Q) /\
+   get_weights cfg (SortConstraint sort first last) objs (Some c) = Abort too_few).
+Proof.
+  intros cfg sort first last objs c H values failed.
+  apply sort_outcome; [reflexivity | |]; unfold values, failed, constraint_col; rewrite col0_failed_length, ?map_length; auto.
+Qed.
+
+(* windows outside the ensemble are rejected when the filter is constructed, and then nothing is evaluated *)
+Theorem C05_range_rejected : forall cfg sort first last,
+  (create cfg (SortObjective sort first last) = Raise "ConfigError" <-> ~ (first <= last /\ last < length (c_rw cfg))%nat) /\
+  (create cfg (SortObjective sort first last) = Ok tt <-> (first <= last /\ last < length (c_rw cfg))%nat).
+Proof.
+  intros cfg sort first last. rewrite create_sort_objective, <- check_range_spec.
+  destruct (check_range _ first last); split; split; intro H; try reflexivity; try discriminate; try congruence;
+    exfalso; apply H; reflexivity.
+Qed.
+
+Theorem C05_range_rejected_constraint : forall cfg sort first last,
+  (create cfg (SortConstraint sort first last) = Raise "ConfigError" <-> ~ (first <= last /\ last < length (c_rw cfg))%nat) /\
+  (create cfg (SortConstraint sort first last) = Ok tt <-> (first <= last /\ last < length (c_rw cfg))%nat).
+Proof.
+  intros cfg sort first last. rewrite create_sort_constraint, <- check_range_spec.
+  destruct (check_range _ first last); split; split; intro H; try reflexivity; try discriminate; try congruence;
+    exfalso; apply H; reflexivity.
+Qed.
+
+Theorem C05_rejected_before_evaluation : forall cfg filters ofm cfm rmin objs cns m s,
+  In m filters -> create cfg m = Raise s ->
+  exists s', evaluate cfg filters ofm cfm rmin objs cns = Raise s'.
+Proof. exact evaluate_rejects. Qed.
+
+(* each filter's vector lands on exactly the objective / constraint rows mapped to it; every other row keeps the
+   configured weights (rows "in force": the reported matrix, or the configured weights when none is reported) *)
+Theorem C05_rows_objectives : forall cfg filters fm cfm objs cns ow cw,
+  length fm = length (c_ow cfg) ->
+  filtered_weights cfg filters (Some fm) cfm objs cns = Ok (ow, cw) ->
+  forall j, (j < length fm)%nat ->
+    match znth (nth j fm (-1)%Z) filters with
+    | Some m => get_weights cfg m objs cns = Ok (nth j (default_matrix ow (length (c_ow cfg)) (c_rw cfg)) [])
+    | None => nth j (default_matrix ow (length (c_ow cfg)) (c_rw cfg)) [] = c_rw cfg
+    end.
+Proof. exact filtered_rows_objectives. Qed.
+
+Theorem C05_rows_constraints : forall cfg filters ofm fm objs cns ow cw,
+  length fm = length (c_lower cfg) ->
+  filtered_weights cfg filters ofm (Some fm) objs cns = Ok (ow, cw) ->
+  forall j, (j < length fm)%nat ->
+    match znth (nth j fm (-1)%Z) filters with
+    | Some m => get_weights cfg m objs cns = Ok (nth j (default_matrix cw (length (c_lower cfg)) (c_rw cfg)) [])
+    | None => nth j (default_matrix cw (length (c_lower cfg)) (c_rw cfg)) [] = c_rw cfg
+    end.
+Proof. exact filtered_rows_constraints. Qed.
+
+(* non-vacuity: 4 realizations, the second failed, window [0,1] over the 3 successes; realization 2 (value 2, rank 0)
+   and realization 0 (value 3, rank 1) are selected, realization 2 has configured weight 0 *)
+Example C05_example :
+  let values := [Q_ 3 1; Q_ 1 1; Q_ 2 1; Q_ 5 1] in
+  let failed := [false; true; false; false] in
+  let cfgw := [Q_ 1 4; Q_ 1 2; Q_ 0 1; Q_ 1 4] in
+  length failed = length values /\ length cfgw = length failed /\
+  map (rank values failed) [0; 2; 3]%nat = [1; 0; 2]%nat /\
+  sort_and_select values cfgw failed 0 1 = [Q_ 1 4; Q_ 0 1; Q_ 0 1; Q_ 0 1] /\
+  sort_and_select values cfgw failed 2 2 = [Q_ 0 1; Q_ 0 1; Q_ 0 1; Q_ 1 4] /\
+  get_weights {| c_rw := cfgw; c_ow := [Q_ 1 1]; c_lower := []; c_upper := [] |} (SortObjective [0%nat] 1 1)
+              (map (fun v => [Some v]) [Q_ 3 1; Q_ 1 1; Q_ 2 1; Q_ 5 1]) None = Abort 1%Z.
+Proof. vm_compute. repeat split; reflexivity. Qed.
+
+Print Assumptions C05_window.
+Print Assumptions C05_ranking.
+Print Assumptions C05_empty_is_too_few_objective.
+Print Assumptions C05_empty_is_too_few_constraint.
 Print Assumptions C05_range_rejected.
+Print Assumptions C05_range_rejected_constraint.
+Print Assumptions C05_rejected_before_evaluation.
+Print Assumptions C05_rows_objectives.
+Print Assumptions C05_rows_constraints.
